@@ -59,6 +59,8 @@ func runC18(c *core.Ctx) {
 	checkGroupByWatermarkOrder(c)
 	checkMetaSendOwnership(c)
 	checkMaxDiffWatermark(c, "GEN")
+	c.Rule("TRIGTIME", "group by: retraction and new row carry the same, current event time")
+	checkTriggerEventTime(c)
 }
 
 func checkBufferEmit(c *core.Ctx) {
@@ -745,5 +747,134 @@ func checkMetaSendOwnership(c *core.Ctx) {
 	}
 	if n < 15 {
 		c.Unknown("ORD8", "<Run implementations>", 0, fmt.Sprintf("only %d Node.Run implementations found", n))
+	}
+}
+
+// checkTriggerEventTime (TRIGTIME): CustomTriggerGroupBy.trigger sends the retraction of the previously sent row and
+// the new row with one and the same event time — the time of the event that fired the trigger (or the row's own
+// event-time key column when that is earlier).  A retraction stamped with the time of the row it retracts may lie at or
+// below a watermark that was forwarded in between.
+func checkTriggerEventTime(c *core.Ctx) {
+	p := c.Prog
+	fn := p.Func("execution/nodes", "(*CustomTriggerGroupBy).trigger")
+	key := "execution/nodes.(*CustomTriggerGroupBy).trigger"
+	if fn == nil {
+		c.Unknown("TRIGTIME", key, 0, "anchor not found")
+		return
+	}
+	c.SawFunc(key)
+	info := fn.Info()
+	ids := typeIDs(p)
+	curName := ""
+	for _, f := range fn.Decl.Type.Params.List {
+		if core.ExprStr(f.Type) == "time.Time" && len(f.Names) == 1 {
+			curName = f.Names[0].Name
+		}
+	}
+	if curName == "" {
+		c.Unknown("TRIGTIME", key, fn.Decl.Pos(), "no time.Time parameter (the firing event's time) found")
+		return
+	}
+	for _, sc := range []struct {
+		name      string
+		index     int64
+		keyBefore bool
+	}{{"no event-time key", -1, false}, {"event-time key earlier than the firing event", 1, true}, {"event-time key not earlier", 1, false}} {
+		sc := sc
+		in := newInterp(p, fn)
+		in.MaxPaths = 4000
+		in.Hooks.Assert = assertOK
+		in.Hooks.Loop = func(st *absint.State, loop ast.Stmt) *absint.LoopSpec {
+			if loopContainsCall(p, info, loop, "execution/nodes.Aggregate.Trigger") {
+				if rs, ok := loop.(*ast.RangeStmt); ok && strings.Contains(core.ExprStr(rs.X), "Aggregates") {
+					return &absint.LoopSpec{Cases: []string{"AGG"}, MaxIter: 1, RefStep: func(ref, cs string) string { return "" }}
+				}
+				return &absint.LoopSpec{Cases: []string{"KEY"}, MaxIter: 1, MinIter: 1, RefStep: func(ref, cs string) string { return "" }}
+			}
+			return nil
+		}
+		in.Hooks.Field = func(st *absint.State, base absint.Val, sel string) (absint.Val, bool) {
+			if sel == "keyEventTimeIndex" {
+				return absint.Int(sc.index), true
+			}
+			return nil, false
+		}
+		in.Hooks.Index = func(st *absint.State, x, i absint.Val) (absint.Val, bool) {
+			if strings.HasSuffix(x.Canon(), "AggregatedSetSize") || x.Canon() == "SIZES" {
+				return absint.Int(1), true
+			}
+			return nil, false
+		}
+		in.Hooks.Call = chainCall(func(st *absint.State, call *ast.CallExpr, callee string, recv absint.Val, args []absint.Val) (absint.Val, bool) {
+			switch {
+			case callee == "execution/nodes.Aggregate.Trigger":
+				return absint.S("aggResult"), true
+			case callee == "time.Time.After" && len(args) == 1:
+				st.Emit("AFTER", call.Pos(), recv, args[0])
+				return absint.Bool(sc.keyBefore), true
+			case msLookup.MatchString(callee):
+				return st.NewObj("item", map[string]absint.Val{"Aggregates": absint.S("AGGS"), "AggregatedSetSize": absint.S("SIZES")}), true
+			case msRemove.MatchString(callee):
+				return st.NewObj("prev", map[string]absint.Val{"Values": absint.S("PREVVALUES"), "EventTime": absint.S("PREVTIME")}), true
+			case msInsert.MatchString(callee):
+				if len(args) == 1 {
+					st.Emit("REMEMBER", call.Pos(), args[0])
+				}
+				return absint.Nil{}, true
+			case callee == "execution.NewRecord" && len(args) == 3:
+				st.Emit("REC", call.Pos(), args...)
+				return absint.S("REC@" + fmt.Sprint(len(st.Events))), true
+			case callee == "value:produce":
+				return absint.Nil{}, true
+			}
+			return nil, false
+		}, ctorHook(ids), errorfHook)
+		outs, err := in.Run(fn.Decl.Type, nil, fn.Decl.Body, nil, "")
+		ckey := key + "/" + sc.name
+		if err != nil {
+			c.Unknown("TRIGTIME", ckey, fn.Decl.Pos(), err.Error())
+			continue
+		}
+		bad := ""
+		full := 0
+		for _, o := range outs {
+			if o.Kind != "return" || len(o.Values) != 1 || !absint.IsNilVal(o.Values[0]) {
+				continue
+			}
+			var retr, add []string
+			for _, e := range o.Events {
+				if e.Name != "REC" {
+					continue
+				}
+				if b, ok := e.Args[1].(absint.Const); ok && b.Canon() == "true" {
+					retr = append(retr, e.Args[2].Canon())
+				} else {
+					add = append(add, e.Args[2].Canon())
+				}
+			}
+			if len(retr) == 0 || len(add) == 0 {
+				continue
+			}
+			full++
+			want := curName
+			if sc.keyBefore {
+				want = "" // the row's own key column: only agreement is required
+			}
+			for _, r := range retr {
+				if r != add[0] {
+					bad = fmt.Sprintf("the retraction carries event time %s, the new row %s: both must carry the time of the firing event", r, add[0])
+				}
+			}
+			if want != "" && add[0] != want {
+				bad = fmt.Sprintf("the new row must carry the firing event's time %s; it carries %s", want, add[0])
+			}
+			if sc.keyBefore && (add[0] == curName || strings.Contains(add[0], "PREV")) {
+				bad = fmt.Sprintf("with an event-time key column earlier than the firing event the rows must carry that column's time; they carry %s", add[0])
+			}
+		}
+		if bad == "" && full == 0 {
+			bad = "no path sends both a retraction and a new row"
+		}
+		c.Decide(bad == "", "TRIGTIME", ckey, fn.Decl.Pos(), len(outs), "retraction and new row carry the same, current event time", bad)
 	}
 }
